@@ -124,9 +124,9 @@ func (e Event) String() string {
 
 // FaultAction tells the front end what to do with a statement.
 type FaultAction struct {
-	Kind  string        // "", fail, hang, delay
+	Kind  string        // "", fail, hang, delay (effect at once, reply late), slow (effect and reply late)
 	Errno int           // for fail
-	Delay time.Duration // for delay
+	Delay time.Duration // for delay and slow
 	// Before/After are world actions run under the world mutex before the statement is applied
 	// resp. after it was applied (and before the reply is written).
 	Before func(w *World)
